@@ -13,7 +13,7 @@ import (
 
 func main() {
 	if len(os.Args) < 2 {
-		fmt.Fprintln(os.Stderr, "usage: lzvc <verify|check|list> ...")
+		fmt.Fprintln(os.Stderr, "usage: lzvc <verify|check|list|replay> ...")
 		os.Exit(2)
 	}
 	switch os.Args[1] {
@@ -23,6 +23,8 @@ func main() {
 		cmdCheck(os.Args[2:])
 	case "list":
 		cmdList(os.Args[2:])
+	case "replay":
+		cmdReplay(os.Args[2:])
 	default:
 		fmt.Fprintln(os.Stderr, "unknown command", os.Args[1])
 		os.Exit(2)
